@@ -1,3 +1,3 @@
 From Coq Require Import ExtrOcamlBasic ExtrOcamlString.
 From FoVerif Require Import Driver.SampleMd.
-Extraction "x_c18.ml" render_files.
+Extraction "x_c18.ml" render_files history_files.
